@@ -94,6 +94,10 @@ type (
 		options        *Options
 
 		ident string
+		// table is the name of an un-aliased FROM table and alias the alias
+		// of an aliased one: a column may be named with the one
+		// (users.id FROM users) and without the other (id FROM users u)
+		table, alias string
 	}
 	ExprOption func(*ExpressionReaderOptions)
 )
@@ -627,8 +631,10 @@ func BuildFromAliasedTable(query *Query, as string, expr sqlparser.SimpleTableEx
 			}
 			if len(as) == 0 {
 				query.ident = strings.SplitN(tableName, ".", 2)[0]
+				query.table = tableName
 			} else {
 				query.ident = as
+				query.alias = as
 			}
 			data, err := ExecReader(query.data, tableName)
 			if err != nil {
@@ -679,6 +685,7 @@ func BuildFromAliasedTable(query *Query, as string, expr sqlparser.SimpleTableEx
 			// a derived table is known by its alias, like a named table; without
 			// it a join of two derived tables cannot tell its sides apart
 			query.ident = as
+			query.alias = as
 			subquery, err := Prepare(query.data, expr.Select, query.options)
 			if err != nil {
 				return err
@@ -2262,6 +2269,8 @@ func CopyQuery(query *Query) *Query {
 		offsetDefinition:  query.offsetDefinition,
 		orderByDefinition: query.orderByDefinition,
 		options:           query.options,
+		table:             query.table,
+		alias:             query.alias,
 		// the copy starts from the parent's list but must not append into the
 		// parent's backing array: a post-processor that registers another one
 		// while the parent's list is being run (AWAIT) would overwrite the
